@@ -54,10 +54,24 @@ pub fn byte_menu_small(b: u8) -> Vec<u8> {
 /// Enumerate all strings at exactly one deviation from `e`. Calls f(string, kind, position).
 /// Returns the number of strings produced.
 pub fn dev1(e: &[u8], f: &mut dyn FnMut(&[u8], &'static str, usize)) -> u64 {
+    dev1_at(e, &|_| true, f)
+}
+
+/// Positions explored for long encodings: the first `head` bytes, the last `tail` bytes and every
+/// `stride`-th byte in between.
+pub fn window(len: usize, head: usize, tail: usize, stride: usize) -> impl Fn(usize) -> bool {
+    move |i| i < head || i + tail >= len || i % stride == 0
+}
+
+/// dev1 restricted to the positions selected by `sel` (truncations use the same selection).
+pub fn dev1_at(e: &[u8], sel: &dyn Fn(usize) -> bool, f: &mut dyn FnMut(&[u8], &'static str, usize)) -> u64 {
     let mut n = 0u64;
     let mut buf = e.to_vec();
     // substitutions
     for i in 0..e.len() {
+        if !sel(i) {
+            continue;
+        }
         let orig = e[i];
         for v in byte_menu(orig) {
             buf[i] = v;
@@ -68,6 +82,9 @@ pub fn dev1(e: &[u8], f: &mut dyn FnMut(&[u8], &'static str, usize)) -> u64 {
     }
     // truncations (every proper prefix, including empty)
     for l in 0..e.len() {
+        if !sel(l) {
+            continue;
+        }
         f(&e[..l], "trunc", l);
         n += 1;
     }
@@ -80,12 +97,18 @@ pub fn dev1(e: &[u8], f: &mut dyn FnMut(&[u8], &'static str, usize)) -> u64 {
     }
     // deletion of one byte, insertion of one byte
     for i in 0..e.len() {
+        if !sel(i) {
+            continue;
+        }
         let mut x = e.to_vec();
         x.remove(i);
         f(&x, "delete", i);
         n += 1;
     }
     for i in 0..=e.len() {
+        if !sel(i.min(e.len().saturating_sub(1))) {
+            continue;
+        }
         for t in [0x00u8, 0x01] {
             let mut x = e.to_vec();
             x.insert(i, t);
@@ -96,6 +119,9 @@ pub fn dev1(e: &[u8], f: &mut dyn FnMut(&[u8], &'static str, usize)) -> u64 {
     // non-minimal varint rewrites at every position: a byte b < 0xfd read as a 1-byte varint is
     // rewritten to its 3-, 5- and 9-byte forms; a 3-byte form to 5 and 9; a 5-byte form to 9.
     for i in 0..e.len() {
+        if !sel(i) {
+            continue;
+        }
         let b = e[i];
         if b < 0xfd {
             for (marker, pad) in [(0xfdu8, 1usize), (0xfe, 3), (0xff, 7)] {
@@ -132,6 +158,9 @@ pub fn dev1(e: &[u8], f: &mut dyn FnMut(&[u8], &'static str, usize)) -> u64 {
     }
     // huge length fields at every position (allocation bombs): b -> fe ff ff ff 7f / ff .. / fe 01 09 3d 00 (4_000_001)
     for i in 0..e.len() {
+        if !sel(i) {
+            continue;
+        }
         for rep in [
             &[0xfeu8, 0xff, 0xff, 0xff, 0xff][..],
             &[0xff, 0xff, 0xff, 0xff, 0xff, 0xff, 0xff, 0xff, 0xff][..],
